@@ -696,7 +696,10 @@ class ModeChooser:
         return 0 if self.mode == "lo" else n - 1
 
 
-def run_net(schedule, mode="lo"):
+HEAL_TICKS = tuple(16 * k + 4 for k in (1, 2, 3, 4))  # operator heal-all at 1.25, 2.25, 3.25, 4.25 s (off the probe instants)
+
+
+def run_net(schedule, mode="lo", heal_tick=None):
     c = NetCtx()
     c.ents = {n: NetNode(n, c) for n in NODES}
     net = Network(name="net")
@@ -710,6 +713,9 @@ def run_net(schedule, mode="lo"):
                      end_time=Instant(END_S * T))
     after_construct(schedule, handles, sim)
     sim.schedule([_ev(tk(16 * k + 8), "tick", ticker, k=k) for k in PROBE_K])
+    if heal_tick is not None:
+        # an operator heals ALL partitions in mid-run through the public Network.heal_partition()
+        sim.schedule(Event.once(Instant(tk(heal_tick)), "harness.heal_all", lambda e: net.heal_partition()))
     with owned_random(ModeChooser(mode, c), rand=RAND_MENU):
         c.outcome = guarded_run(sim)
     c.final = {(a, b): (net.is_partitioned(a, b), net.get_link(a, b).packet_loss_rate) for (a, b) in PAIRS}
@@ -723,7 +729,7 @@ def part_blocks(spec, a, b):
     return (not asym) and a in gb and b in ga
 
 
-def net_oracle(schedule, c, mode):
+def net_oracle(schedule, c, mode, heal_ns=None):
     out = []
     live = [spec for spec, cancel in schedule if cancel is None]
     note = "" if c.outcome == "done" else f" [run outcome: {c.outcome}]"
@@ -737,7 +743,7 @@ def net_oracle(schedule, c, mode):
         eff = "+".join(short.get(x, x.lower()) for x in cls.split("+"))
         touched = any((s[0] == "part" and part_blocks(s, *pair)) or (s[0] in ("lat", "loss") and (s[1], s[2]) == pair)
                       for s in live)
-        key = (f"{eff}:{clause}", "link" if touched else "untargeted-link")
+        key = (f"{eff}:{clause}", ("link" if touched else "untargeted-link") + ("+heal-all" if heal_ns is not None else ""))
         if key not in done:
             done.add(key)
             out.append((key, desc + note))
@@ -752,6 +758,10 @@ def net_oracle(schedule, c, mode):
                 add("Network", "probe-not-sent", (a, b), f"tick {k} never ran")
                 continue
             p_on = [s for s in parts if inside(t, win(s))]
+            if heal_ns is not None:
+                # Network.heal_partition(): "Remove all network partitions, restoring full connectivity" - a window
+                # that was open at the heal-all is over from then on; windows that start later act normally
+                p_on = [s for s in p_on if not (win(s)[0] * T < heal_ns <= t)]
             l_on = [s for s in losses if inside(t, win(s))]
             d_on = [s for s in lats if inside(t, win(s))]
             s_part, s_loss = c.samples[(a, b, k)]
@@ -1051,6 +1061,8 @@ def variants(world, schedule):
         return (None,)
     if world == "network":
         return net_modes(schedule)
+    if world == "healall":
+        return HEAL_TICKS
     return tuple(range(len(_WL)))
 
 
@@ -1065,6 +1077,9 @@ def execute(world, schedule, variant):
     if world == "network":
         c = run_net(schedule, variant)
         return c, net_oracle(schedule, c, variant), net_obs(c), net_trans(c)
+    if world == "healall":
+        c = run_net(schedule, "lo", heal_tick=variant)
+        return c, net_oracle(schedule, c, "lo", heal_ns=tk(variant)), net_obs(c), net_trans(c)
     wl = _WL[variant]
     c = run_res(schedule, wl)
     return c, res_oracle(schedule, c, wl), res_obs(c), res_trans(c)
@@ -1105,14 +1120,21 @@ def nontrivial(world, schedule):
     handle, or a node fault on a target with work in flight across the window edge (G, Q: always)."""
     if any(c is not None for _s, c in schedule):
         return True
+    if world == "healall" and schedule:
+        return True  # an operator heal-all lands before / inside / between / after the partition windows
     for a, b in itertools.combinations(schedule, 2):
         if relation(win(a[0]), win(b[0])) != "disjoint":
             return True
     return any(s[0] in ("crash", "pause") and s[1] in ("G", "Q") for s, _c in schedule)
 
 
+def healall_atoms(cancel_modes):
+    return [(sp, c) for (sp, c) in net_atoms(cancel_modes) if sp[0] == "part"]
+
+
 def atoms_for(world, cancel_modes):
-    return {"node": node_atoms, "network": net_atoms, "resource": res_atoms}[world](cancel_modes)
+    return {"node": node_atoms, "network": net_atoms, "resource": res_atoms,
+            "healall": healall_atoms}[world](cancel_modes)
 
 
 def schedules_of(world, k, cancel_modes, prefix):
@@ -1167,7 +1189,8 @@ def run_driver(run, world, kmax, cancel_by_k, seed):
         "cancel_modes_by_k": {str(k): [str(c) for c in cancel_by_k[k]] for k in range(1, kmax + 1)},
         "atoms": len(atoms_for(world, (None,))),
         "variants": {"node": 1, "network": "random.random() in {0.000001, 0.999999} when a loss fault is live",
-                     "resource": f"{len(_WL)} hold workloads"}[world],
+                     "resource": f"{len(_WL)} hold workloads",
+                     "healall": "operator Network.heal_partition() at 1.25 / 2.25 / 3.25 / 4.25 s"}[world],
     })
     outcomes = set()
     jobs = []
@@ -1211,11 +1234,13 @@ def main(tier, seed, only=None):
     if tier == "quick":
         plan = [("node", 2, {1: ALL_MODES, 2: (None, "post")}),
                 ("network", 2, {1: ALL_MODES, 2: (None, "post")}),
-                ("resource", 2, {1: ALL_MODES, 2: (None, "post")})]
+                ("resource", 2, {1: ALL_MODES, 2: (None, "post")}),
+                ("healall", 2, {1: (None,), 2: (None,)})]
     else:
         plan = [("node", 3, {1: ALL_MODES, 2: ALL_MODES, 3: (None,)}),
                 ("network", 3, {1: ALL_MODES, 2: ALL_MODES, 3: (None,)}),
-                ("resource", 3, {1: ALL_MODES, 2: ALL_MODES, 3: (None,)})]
+                ("resource", 3, {1: ALL_MODES, 2: ALL_MODES, 3: (None,)}),
+                ("healall", 3, {1: (None,), 2: (None, "post"), 3: (None,)})]
     for world, kmax, cm in plan:
         if only and world not in only:
             continue
@@ -1255,7 +1280,9 @@ def replay(data):
             rows += [(t, f"{x} process {tag} received {v!r} from its SimFuture") for (tag, t, v) in c.values[x]]
         for t, txt in sorted(rows, key=lambda r: r[0]):
             print(f"  {sec(t):8.4f}s {txt}")
-    elif world == "network":
+    elif world in ("network", "healall"):
+        if world == "healall":
+            print(f"  operator heal-all (Network.heal_partition()) at {sec(tk(variant))} s")
         for key in sorted(c.sent, key=lambda k: (k[2], k[0], k[1])):
             got = c.rx.get(key)
             print(f"  {sec(c.sent[key]):8.4f}s probe {key[0]}->{key[1]} is_partitioned/loss_rate={c.samples[key]} "
